@@ -274,6 +274,52 @@ pub fn product_budget(factors: &[&Rat]) -> Option<Rat> {
     }
 }
 
+/// Absolute error allowed on a result with exact value `result` when a
+/// correct implementation may form any of the (non-zero) `intermediates` and
+/// round each of them once: f64 16 u relative (None if the result or an
+/// intermediate leaves 2^+-960), decimal 8e-18 * (1 + |R| / min |X|).
+pub fn budget_with(result: &Rat, intermediates: &[&Rat]) -> Option<Rat> {
+    if result.is_zero() {
+        return Some(Rat::zero());
+    }
+    #[cfg(not(feature = "dec"))]
+    {
+        for x in intermediates.iter().copied().chain(std::iter::once(result)) {
+            if x.is_zero() {
+                continue;
+            }
+            let l = x.log2_floor();
+            if !(-960..=960).contains(&l) {
+                return None;
+            }
+        }
+        Some(result.abs().mul(&Budget::rel()))
+    }
+    #[cfg(feature = "dec")]
+    {
+        let mut lo: Option<Rat> = None;
+        for x in intermediates {
+            if x.is_zero() {
+                continue;
+            }
+            let a = x.abs();
+            if lo.as_ref().map_or(true, |m| a.cmp(m).is_lt()) {
+                lo = Some(a);
+            }
+        }
+        let lo = lo.unwrap_or_else(Rat::one);
+        Some(Budget::abs_dec().mul(&Rat::one().add(&result.abs().div(&lo))))
+    }
+}
+
+/// |got - exact| <= budget * slack ?
+pub fn close(got: AmountT, exact: &Rat, budget: &Rat, slack: u64) -> bool {
+    match to_rat(got) {
+        Some(g) => g.sub(exact).abs().cmp(&budget.mul(&Rat::from_u64(slack))).is_le(),
+        None => false,
+    }
+}
+
 /// Is `got` an acceptable rounding of the exact product of `factors`
 /// (DESIGN.md 3.2)?  `slack` multiplies the budget (>= 1).
 pub fn product_within(got: AmountT, factors: &[&Rat], slack: u64) -> Within {
